@@ -23,10 +23,17 @@
                            recursive fold; its `stack.pop().unwrap()` sites are unreachable.
    * C07_lift_desc_table   descriptor wrappers: bare/sh/wsh/sh(wsh) = inner, pkh/wpkh/sh(wpkh) = key,
                            tr = key \/ or(leaves) (per-leaf signatures, same availability).
-   * C07_script_direction_partial   "the policy invents no path": with Theorem A, if the lifted
-                           policy is true under assets that are genuine for the transaction
-                           environment, a witness exists that the Script semantics accepts on the
-                           ENCODED script (B-typed, multisig leaves excepted as in Theorem A).
+   * C07_script_direction_partial   "the policy invents no path": with Theorem A (now covering
+                           the multisig leaves; script-number facts proved), if the lifted policy is
+                           true under assets that are genuine for the transaction environment, a
+                           witness exists that the Script semantics accepts on the ENCODED script
+                           (every B-typed liftable script; liftable already excludes raw_pk_h).
+   * C07_satisfier_implies_policy   the MODEL of the library's satisfier (Ms/Sat.v, both modes) returns
+                           a satisfaction only when the lifted policy is true: the policy hides no
+                           path the satisfier can take (via SatProofs.sat_in_table).
+   * C07_policy_implies_satisfier_partial   conversely a true policy makes the malleable satisfier
+                           model produce a witness (CompleteProofs.mall_complete: thresholds with
+                           k = n only, hence _partial).
 
    NOT proved (hence _partial): the converse at Script level, "the policy hides no path":
        accepts e (enc ke m) w = true  (w over W's alphabet)  ->  leval A (lift m) = true.
@@ -35,14 +42,8 @@
    the check compares, for every world over the atoms of each generated script, the
    implementation's lifted policy with the implementation's own malleable satisfier and with
    the extracted table. *)
-From Verif Require Import Exec Ser Ast Types TypeCheck SatSpec LiftModel TheoremA LiftProofs LiftNormProofs LiftMainProofs.
+From Verif Require Import Exec Ser Ast Types TypeCheck SatSpec Sat LiftModel TheoremA SatProofs CompleteProofs LiftProofs LiftNormProofs LiftMainProofs.
 From Coq Require Import Permutation.
-
-Definition c07_num_facts : Prop :=
-  (forall z, (0 <= z < 2147483648)%Z -> num_operand 4 (num_encode z) = Some z) /\
-  (forall z, (0 <= z < 2147483648)%Z -> num_operand 5 (num_encode z) = Some z) /\
-  (forall z, (0 < z < 2147483648)%Z -> truthy (num_encode z) = true) /\
-  (forall v z, num_operand 4 v = Some z -> truthy v = negb (z =? 0)%Z).
 
 (* BIP67 sorting only reorders keys *)
 Definition sort_permutes (ke : keyenv) : Prop := forall ks, Permutation (ksort ke ks) ks.
@@ -90,13 +91,36 @@ Print Assumptions C07_lift_desc_table.
 
 Theorem C07_script_direction_partial :
   forall (ke : keyenv), sort_permutes ke ->
-  forall (e : env) (A : assets), c07_num_facts -> assets_ok e ke A ->
+  forall (e : env) (A : assets), assets_ok e ke A -> (forall kbs, e_sigok e kbs [] = false) ->
   forall (rl : bool) (m : ms) (t : ty) (p : lpolicy),
-    type_of m = ROk t -> c_base (t_corr t) = BB -> wf e ke m -> no_multi m ->
+    type_of m = ROk t -> c_base (t_corr t) = BB -> wf e ke m ->
     lift rl m = Some p -> leval A p = true ->
     exists w, In w (all_sat ke A m) /\ accepts e (enc ke m) w = true.
 Proof. exact lift_script_direction. Qed.
 Print Assumptions C07_script_direction_partial.
+
+Theorem C07_satisfier_implies_policy :
+  forall (ke : keyenv), sort_permutes ke ->
+  forall (A : assets) (se : senv) (f : fill), linked ke A se f ->
+  forall (mall rhs rl : bool) (m : ms) (t : ty) (p : lpolicy) (bs : list bytes),
+    type_of m = ROk t -> ms_thresh_ok m -> lift rl m = Some p ->
+    satisfy ke se f mall rhs m = Some bs -> leval A p = true.
+Proof. exact lift_satisfier_implies_policy. Qed.
+Print Assumptions C07_satisfier_implies_policy.
+
+Theorem C07_policy_implies_satisfier_partial :
+  forall (ke : keyenv), sort_permutes ke ->
+  forall (A : assets) (se : senv) (f : fill), linked ke A se f ->
+  (forall t1 t2, se_after se t1 = true -> se_after se t2 = true ->
+                 Bool.eqb (N.ltb t1 500000000) (N.ltb t2 500000000) = true) ->
+  (forall t1 t2, se_older se t1 = true -> se_older se t2 = true ->
+                 Bool.eqb (rel_is_time t1) (rel_is_time t2) = true) ->
+  forall (rhs rl : bool) (m : ms) (t : ty) (p : lpolicy),
+    type_of m = ROk t -> ms_thresh_ok m -> no_partial_thresh m ->
+    lift rl m = Some p -> leval A p = true ->
+    is_stack (s_stack (snd (sat_dissat ke se true rhs m))) = true.
+Proof. exact lift_policy_implies_satisfier. Qed.
+Print Assumptions C07_policy_implies_satisfier_partial.
 
 (* non-vacuity: concrete liftable scripts, what they lift to, and that both truth values occur *)
 Example C07_ex_andor :
@@ -119,11 +143,11 @@ Proof. repeat split; reflexivity. Qed.
 Example C07_ex_typed :
   exists t, type_of (MAndOr (MCheck (MPkK 0%N)) (MOlder 5%N) (MCheck (MPkH 1%N))) = ROk t /\ c_base (t_corr t) = BB.
 Proof. eexists. split; reflexivity. Qed.
-(* the hypotheses of C07_script_direction_partial other than the arithmetic facts are jointly
-   satisfiable: a concrete environment, key table, asset record and script *)
+(* the hypotheses of C07_script_direction_partial are jointly satisfiable: a concrete
+   environment, key table, asset record and script *)
 Example C07_script_direction_nonvacuous :
-  assets_ok ex_e ex_ke ex_A /\ sort_permutes ex_ke /\
-  exists t p, type_of ex_m = ROk t /\ c_base (t_corr t) = BB /\ wf ex_e ex_ke ex_m /\ no_multi ex_m /\
+  assets_ok ex_e ex_ke ex_A /\ (forall kbs, e_sigok ex_e kbs [] = false) /\ sort_permutes ex_ke /\
+  exists t p, type_of ex_m = ROk t /\ c_base (t_corr t) = BB /\ wf ex_e ex_ke ex_m /\
               lift true ex_m = Some p /\ leval ex_A p = true.
 Proof. exact lift_nonvacuous. Qed.
 Example C07_ex_both_values :
